@@ -73,12 +73,12 @@ func body(r *vf.Run) {
 }
 
 func top(r *vf.Run) {
-	nSeq := r.N(300, 8000)
-	nConc := r.N(90, 1000)
+	nSeq := r.N(300, 6000)
+	nConc := r.N(90, 900)
 	// The cases are bound by the latency of bbolt's fdatasync (two per store update),
 	// not by CPU: several children run side by side, each on its own range of cases.
 	t := time.Now()
-	runParallel(r, "seq", nSeq, 6, r.N(80, 400), false)
+	runParallel(r, "seq", nSeq, r.N(6, 8), r.N(80, 400), false)
 	r.Set("stage_seq_seconds", time.Since(t).Seconds())
 	t = time.Now()
 	runParallel(r, "conc", nConc, 4, r.N(30, 250), true)
@@ -134,7 +134,9 @@ func runBatches(r *vf.Run, stage string, from, n, batch int, race bool) {
 			}
 			return
 		}
-		if ex.ExitCode == 0 && ex.Signal == "" && ex.Partial && open < 0 {
+		// A race build that reported races exits with 66 after a complete run: the
+		// journal (every case closed, the last one included) decides, not the exit code.
+		if ex.Signal == "" && ex.Partial && open < 0 && lastEnd == hi-1 {
 			lo = hi
 			continue
 		}
